@@ -73,12 +73,28 @@ Req ==
     ELSE IF \E i \in 1..Len(R.res) : R.res[i].type # Down THEN Bad("req:non-down-segment")
     ELSE Keep
 
+\* group configuration table (not part of C45's statement: every mismatch is drift): Group.Validate accepts
+\* iff the id is not zero, the owner is set and is the AS named in the id, writers and registries are not
+\* empty; Groups.Roles(ia) = the roles of ia in the group; the YAML form round-trips
+GCfg ==
+    LET wantValid == /\ ~(R.ido = 0 /\ R.suf = 0) /\ R.owner # 0 /\ As(R.owner) = R.ido
+                     /\ R.writers # <<>> /\ R.regs # <<>>
+        rolesOK == \A i \in 1..Len(R.roles) :
+                      LET x == R.roles[i] IN
+                      /\ x.o = (x.ia = R.owner) /\ x.w = (x.ia \in Range(R.writers))
+                      /\ x.r = (x.ia \in Range(R.readers)) /\ x.g = (x.ia \in Range(R.regs)) IN
+    /\ (R.valid # wantValid => Drift("gcfg:validate-accepts=" \o ToString(R.valid)))
+    /\ (~rolesOK => Drift("gcfg:roles"))
+    /\ (R.valid /\ ~R.rt => Drift("gcfg:yaml-round-trip"))
+    /\ Keep
+
 Step == /\ l <= Len(Trace)
         /\ l' = l + 1
         /\ IF R.ev = "reset" THEN Reset
            ELSE IF failed THEN Keep
            ELSE CASE R.ev = "reg" -> Reg
                   [] R.ev = "req" -> Req
+                  [] R.ev = "gcfg" -> GCfg
                   [] OTHER -> Bad("no-spec-action:" \o R.ev)
 
 Done == /\ l = Len(Trace) + 1
